@@ -231,3 +231,128 @@ Proof.
     exists h'. cbn [ofold flat_map]. rewrite E1. split; [exact E'|]. split; [|congruence].
     rewrite !app_assoc. exact Hinv'.
 Qed.
+
+(* ---------- the events of a well-formed block are fine *)
+
+Definition skey (s : Z * Z * Z) : Z := fst (fst s).
+Definition tkey (q : txn * Z) : Z := t_id (fst q).
+
+Lemma evs_ok_global p E : forall CR S TX,
+  NoDup (map ux_id (CR ++ flat_map p_create E)) ->
+  NoDup (map skey (S ++ flat_map p_spend E)) ->
+  NoDup (map tkey (TX ++ flat_map p_txn E)) ->
+  (forall id tid q, In (ESpend id tid q) E ->
+     exists u, find_ux p id = Some u /\ find (fun u => ux_id u =? id) CR = Some u) ->
+  (forall u tid, In (ECreate u tid) E -> ~ In (ux_id u) (map skey (S ++ flat_map p_spend E))) ->
+  evs_ok p CR S TX E.
+Proof.
+  induction E as [|e r IH]; intros CR S TX Ha Hb Hc Hd He; cbn [evs_ok]; [exact I|].
+  cbn [flat_map] in Ha, Hb, Hc, He. rewrite app_assoc in Ha, Hb, Hc.
+  split.
+  - destruct e as [t q | id tid q | u tid]; cbn [ev_ok p_create p_spend p_txn] in *.
+    + rewrite map_app in Hc. apply NoDup_app_inv in Hc as (Hc1 & _ & _).
+      rewrite map_app in Hc1. apply NoDup_app_inv in Hc1 as (_ & _ & Hc3).
+      intros Hin. apply (Hc3 _ Hin). now left.
+    + split; [apply (Hd id tid q); now left|].
+      rewrite map_app in Hb. apply NoDup_app_inv in Hb as (Hb1 & _ & _).
+      rewrite map_app in Hb1. apply NoDup_app_inv in Hb1 as (_ & _ & Hb3).
+      intros Hin. apply (Hb3 _ Hin). now left.
+    + split.
+      * rewrite map_app in Ha. apply NoDup_app_inv in Ha as (Ha1 & _ & _).
+        rewrite map_app in Ha1. apply NoDup_app_inv in Ha1 as (_ & _ & Ha3).
+        intros Hin. apply (Ha3 _ Hin). now left.
+      * intros Hin. apply (He u tid (or_introl eq_refl)). rewrite app_nil_l in *.
+        rewrite map_app. apply in_app_iff. now left.
+  - apply IH; auto.
+    + intros id tid q Hin. destruct (Hd id tid q (or_intror Hin)) as (u & H1 & H2).
+      exists u. split; [exact H1|]. rewrite find_app, H2. reflexivity.
+    + intros u tid Hin. rewrite <- app_assoc. apply (He u tid). now right.
+Qed.
+
+Lemma in_flat_map_proj {A B} (f : A -> list B) l x y : In x l -> In y (f x) -> In y (flat_map f l).
+Proof. intros H1 H2. apply in_flat_map. now exists x. Qed.
+
+Lemma find_ux_some p i : In i (map ux_id (created p)) -> exists u, find_ux p i = Some u /\ ux_id u = i.
+Proof.
+  intros Hin. unfold find_ux. destruct (find (fun u => ux_id u =? i) (created p)) as [u|] eqn:E.
+  - exists u. split; [reflexivity|]. apply find_some in E. lia.
+  - exfalso. apply (find_key_none ux_id) in E. contradiction.
+Qed.
+
+Lemma block_events_ok p b : cinv p -> wfb p b ->
+  evs_ok p (created p) (spends p) (txns_of p) (block_events b).
+Proof.
+  intros Hc Hb. pose proof (cinv_snoc p b Hc Hb) as Hc'.
+  apply evs_ok_global.
+  - rewrite block_events_create, <- created_snoc. apply Hc'.
+  - rewrite block_events_spend, <- spends_snoc. unfold skey. rewrite spends_ids. apply Hc'.
+  - rewrite block_events_txn, <- txns_snoc. apply Hc'.
+  - intros id tid q Hin.
+    assert (Hi : In id (block_ins b)).
+    { rewrite <- block_spends_ids, <- block_events_spend. apply in_map_iff. exists (id, tid, q). split; [reflexivity|].
+      apply (in_flat_map_proj p_spend _ (ESpend id tid q)); [exact Hin | now left]. }
+    destruct (find_ux_some p id (utxo_ids_sub p id (wb_ins_unspent _ _ Hb id Hi))) as (u & Hu & _).
+    exists u. split; exact Hu.
+  - intros u tid Hin.
+    assert (Hu : In u (block_uxs b)).
+    { rewrite <- block_events_create. apply (in_flat_map_proj p_create _ (ECreate u tid)); [exact Hin | now left]. }
+    rewrite block_events_spend, <- spends_snoc. unfold skey. rewrite spends_ids, spent_snoc, in_app_iff.
+    intros [H|H]; apply (wb_new_fresh _ _ Hb u Hu).
+    + now apply (ci_spent_sub _ Hc).
+    + apply utxo_ids_sub. now apply (wb_ins_unspent _ _ Hb).
+Qed.
+
+(* ---------- touches under extension of the chain *)
+
+Lemma find_ux_snoc p b i u : find_ux p i = Some u -> find_ux (p ++ [b]) i = Some u.
+Proof. unfold find_ux. rewrite created_snoc, find_app. now intros ->. Qed.
+
+Lemma txn_ins_spent c t q : In (t, q) (txns_of c) -> incl (t_ins t) (spent_ids c).
+Proof.
+  unfold txns_of, spent_ids. intros H i Hi. apply in_flat_map in H as (b & Hb & H).
+  unfold block_txns in H. apply in_map_iff in H as (t' & E & Ht). injection E as -> _.
+  apply in_flat_map. exists b. split; [exact Hb|]. unfold block_ins. apply in_flat_map. now exists t.
+Qed.
+
+Lemma map_flat_map {A B C} (f : B -> C) (g : A -> list B) l : map f (flat_map g l) = flat_map (fun x => map f (g x)) l.
+Proof. induction l as [|x r IH]; cbn; [reflexivity|]. now rewrite map_app, IH. Qed.
+
+Lemma touches_snoc p b : cinv p -> wfb p b ->
+  touches (p ++ [b]) = touches p ++ flat_map (p_touch p) (block_events b).
+Proof.
+  intros Hc Hb. unfold touches. rewrite txns_snoc, flat_map_app. f_equal.
+  - apply flat_map_ext'. intros [t q] Hin. cbn [fst]. f_equal. unfold txn_addrs. f_equal.
+    apply flat_map_ext'. intros i Hi.
+    assert (Hcr : In i (map ux_id (created p))).
+    { apply (ci_spent_sub _ Hc). now apply (txn_ins_spent p t q Hin). }
+    destruct (find_ux_some p i Hcr) as (u & Hu & _). now rewrite (find_ux_snoc p b i u Hu), Hu.
+  - unfold block_txns, block_events. rewrite flat_map_map, flat_map_flat_map.
+    apply flat_map_ext'. intros t Ht. cbn [fst]. rewrite txn_events_touch. unfold txn_addrs.
+    rewrite map_app, map_flat_map. f_equal.
+    + apply flat_map_ext'. intros i Hi.
+      assert (Hib : In i (block_ins b)) by (unfold block_ins; apply in_flat_map; now exists t).
+      destruct (find_ux_some p i (utxo_ids_sub p i (wb_ins_unspent _ _ Hb i Hib))) as (u & Hu & _).
+      now rewrite (find_ux_snoc p b i u Hu), Hu.
+    + unfold txn_uxs. rewrite !map_map. reflexivity.
+Qed.
+
+(* ---------- one block *)
+
+Lemma parse_block_agree h p b :
+  cinv p -> wfb p b -> hagree h p ->
+  exists h', parse_block h b = Some h' /\ hagree h' (p ++ [b]).
+Proof.
+  intros Hc Hb Hag. apply hagree_hinv in Hag as [Hinv Hpar].
+  destruct (apply_events_inv p (block_events b) _ _ _ _ h Hinv (block_events_ok p b Hc Hb)) as (h1 & E1 & Hinv1 & _).
+  unfold parse_block. rewrite E1. eexists. split; [reflexivity|].
+  apply hagree_hinv. split.
+  - rewrite block_events_create, block_events_spend, block_events_txn in Hinv1.
+    rewrite created_snoc, spends_snoc, txns_snoc, (touches_snoc p b Hc Hb).
+    destruct Hinv1 as [A1 A2 A3 A4]. constructor; cbn [h_outs h_txns h_addr_ux h_addr_txns]; assumption.
+  - cbn [h_parsed]. rewrite (wb_seq _ _ Hb). unfold some_head, head_seq. destruct (p ++ [b]) eqn:E.
+    + destruct p; discriminate.
+    + rewrite <- E, app_length. cbn. f_equal. lia.
+Qed.
+
+Lemma hagree_empty : hagree hs_empty [].
+Proof. unfold hagree, hs_empty. cbn. repeat split; auto. Qed.
